@@ -8,9 +8,44 @@ HERE = os.path.dirname(os.path.dirname(os.path.abspath(__file__)))
 CHECKS = {
     "C01": ("exploration",
             "bounded exhaustive enumeration of programs x contexts x configurations against a reference evaluator",
-            "Every formula of three explicit layers (all comparison atoms over value pools; all boolean structures with <=3 (quick) / <=5 (thorough) binary operators, 0-2 nots per operand and one optional parenthesised sub-chain; mixed comparison formulas) is parsed, compiled and executed by the real engine on every context of its pool under all four configurations (fields optional/mandatory x nil-not-equal true/false) and compared with an independent reference evaluator (precedence by splitting at the weakest operator). Exhaustive within the stated alphabet, so a wrong table entry, precedence or nil default has a witness inside the space.",
-            "Reference evaluator in harness/src/sem.rs + association builder in checks/c01.rs; values outside the pools are not explored.",
+            "Every formula of three explicit layers (all comparison atoms over value pools; all boolean structures with <=4 (quick) / <=5 (thorough) binary operators, 0-2 nots per operand and one optional parenthesised sub-chain; mixed comparison formulas with <=2 / <=3 operators) is parsed, compiled and executed by the real engine on every context of its pool under all four configurations (fields optional/mandatory x nil-not-equal true/false) and compared with an independent reference evaluator (association by splitting at the weakest operator). Exhaustive within the stated alphabet, so a wrong table entry, precedence or nil default has a witness inside the space.",
+            "Reference evaluator harness/src/sem.rs + association builder checks/c01.rs; values outside the pools are not explored.",
             "DESIGN.md §5 C01"),
+    "C02": ("exploration",
+            "bounded exhaustive enumeration of index paths x container shapes x logical shapes against a reference evaluator",
+            "Every index path of every length (indexes {0,1,3,u32::MAX,*}, keys {a,b,'',zz,*}) over every container field nested up to depth 3, with every applicable comparison and wrapper (not, parentheses, any/all in both argument forms), is executed on every shape-pool context (absent, empty, singleton, ragged, non-UTF-8 key); every chain of <=2 (quick) / <=3 (thorough) operators over five array-valued operands of unequal lengths is observed through any(), all() and - as the exact result vector - through an identity function; value expressions compared as values or typed absences.",
+            "Reference evaluator harness/src/sem.rs (path expansion, element-wise logic with truncation to the shortest operand); container values outside the shape pools are not explored.",
+            "DESIGN.md §5 C02"),
+    "C03": ("exploration",
+            "bounded exhaustive enumeration of call terms x contexts against a reference evaluator sharing the harness functions",
+            "Every call term up to nesting depth 2 (quick) / 3 (thorough) over the harness functions (pure functions, 0-2 optional parameters, literal-only / field-only parameters, the built-in concat, a definition with a per-call context) with arguments from fields, index paths, literals, nested calls and logical expressions, map-each over arrays and maps with memoised and re-evaluated extra arguments, is evaluated as a value expression (exact value or typed absence), inside comparisons and under quantifiers on 1152 contexts; the recorded invocations of the harness functions are compared with the model's (exactly, or - where the statement leaves the number of evaluations open - by per-record counts between the two admissible strategies).",
+            "Harness functions are the same pure Rust code on both sides; evaluation order between different calls is not judged, only which invocations happen and with which arguments.",
+            "DESIGN.md §5 C03"),
+    "C04": ("exploration",
+            "exhaustive finite matrices and bounded compositions of candidates judged against a reference typer, accepted ones executed",
+            "Complete matrices (18 left-hand sides x 13 operators x 15 literal kinds; every index path up to length 3 over every field; operand shapes x logical operators for all 2- and 3-operand chains; every function x every argument tuple up to the arity bound from a 19-argument pool) and all compositions of 11 typed / ill-typed leaves under not, parentheses, and/or/xor, any/all and calls up to depth 2: the engine must accept exactly those the reference typer accepts; every accepted filter or value expression is compiled and executed on five contexts (mandatory fields set) without panic, with the reference value and - for value expressions - a deep type walk.",
+            "Typing rules audited in DESIGN.md §5 C04 (harness/src/sem.rs); only sentences of the grammar are generated (operator/literal syntax pairs that no left-hand type admits are outside).",
+            "DESIGN.md §5 C04"),
+    "C07": ("exploration",
+            "bounded exhaustive enumeration of spellings per structure; engine JSON compared with a reference serialiser",
+            "For every program of a 10k-filter corpus (every operator, index kind, call shape, literal form; all 1-3 operator boolean structures): every alias assignment of the first 8 operator occurrences x whitespace layouts (minimal, single, double, LF, CR/LF mix, each gap alone, Unicode whitespace around) must give equal ASTs, byte-identical JSON equal to the reference document, identical C-API hash and identical std Hash; serialising twice is identical; over the whole set the map JSON -> structure is injective.",
+            "Reference serialiser harness/src/sem.rs::expr_json; whitespace alphabet as documented (space, CR, LF between tokens).",
+            "DESIGN.md §5 C07"),
+    "C09": ("exploration",
+            "exhaustive enumeration of all lists up to a length bound over small ordered domains x all probes",
+            "All lists of <=4 (quick) / <=5 (thorough) items over all 29 ranges of a 7-point i64 domain (extremes, adjacent and far points) x 13 probes + absent; all lists of <=3 / <=4 items over 45 IPv4/IPv6 items (addresses, CIDRs where the range is one, explicit ranges, ::/0, mapped block) x 22 probes of both families; all byte-string lists of <=4 over 6 strings in three literal forms; long lists (all items in several orders, all-but-one); mapped and indexed left-hand sides. Oracle: exists item with lo <= x <= hi in x's family.",
+            "Endpoints outside the small domains are not explored (seed adds one).",
+            "DESIGN.md §5 C09"),
+    "C12": ("exploration",
+            "exhaustive program corpus x every field name; oracle from the generating structure",
+            "Every program of the sole-occurrence family (the only mention of a field at each AST position kind - lhs, index base, 1st/2nd/3rd call argument at depth 1-3, logical argument, quantifier argument in both forms, chain operand left/middle/right, under not/parentheses - inside or outside the lhs of an `in $list`, including `in $list` below plain call arguments 2-3 calls deep) and of the shared corpus x every field of the scheme and 7 non-field names, for uses and uses_list, on FilterAst and FilterValueAst.",
+            "Occurrences computed from the generating structure (ast::fields_of / list_fields_of).",
+            "DESIGN.md §5 C12"),
+    "C13": ("exploration",
+            "exhaustive enumeration of nesting-construct sequences x limits x placements; subprocess for deep recursion",
+            "Every applicable sequence of the seven nesting constructs ((), not, !, any, all, call fb/fa, hex-named call fade) of length <=5 (quick) / <=7 (thorough) around a boolean and a boolean-array leaf x 6 placements (sole, left/right/middle chain operand, first/second call argument) x every limit 0..=7/8: accepted iff reference nesting <= limit; limits 16, 64, 128 (also through the default parser), 129, 200 with pure and cyclic shapes at d-1, d, d+1; value expressions with call nests; six depth-200 filters are parsed, serialised, hashed (C API), compiled, executed against the reference value and dropped on a 1 MiB stack in a subprocess.",
+            "Nesting defined by ast::depth; rejection may carry any error kind.",
+            "DESIGN.md §5 C13"),
 }
 
 PENDING_REASON = "check not built yet in this session; planned in DESIGN.md (bounded exhaustive formulation exists)"
